@@ -20,6 +20,10 @@ Oracle (independent account, per channel and direction S -> R):
   * after everything has been delivered: every stream of S is received completely, provided R's
     application did not close first (R stops replenishing once it has closed, which is legitimate)
                                                            -> `stream-incomplete-at-quiescence`
+Re-entrancy: in half of the cases the channel's startWriting() hook synchronously calls write /
+writeExtended / loseConnection (a producer that produces the moment it is resumed) and the
+stopWriting() hook may call loseConnection; the model records each call when it happens, so the
+oracle is unchanged ("written in order" = order of the calls).
 False-alarm guards: nothing is asserted about how writes are split into messages or about the timing
 of WINDOW_ADJUST; the application never writes after its own loseConnection(); completeness is only
 demanded at quiescence and only when the receiver did not initiate a close; an application-level
@@ -39,7 +43,8 @@ LEVEL = "exploration"
 ENGINE = "E2-netsim"
 TECHNIQUE = "runtime monitoring: independent per-direction window/packet account on the messages between two real SSHConnections + written==received per stream at quiescence"
 RULE = ("random histories (write / writeExtended type 1,2 / writeSequence / loseConnection / explicit "
-        "adjustWindow / deliver-next-message in either direction) over 1-2 channels opened in both "
+        "adjustWindow / deliver-next-message in either direction; in half of the cases the channels' "
+        "startWriting()/stopWriting() hooks synchronously write more data or close - scripted, replayable) over 1-2 channels opened in both "
         "directions, advertised windows from {1,2,3,5,16,100,1000,32768,131072,1048576} and max packets "
         "from {1,2,3,7,64,1000,32768}; then everything is delivered.  A case is distinct by its exact "
         "history + sizes; non-trivial = at least one write had to be buffered (window exhausted).")
@@ -48,7 +53,8 @@ ASSUMPTIONS = ["trusted base: the stub transport delivers messages FIFO per dire
                "sizes are taken from the OPEN/CONFIRMATION messages (what the peer advertised)"]
 SHARDS = {"quick": 4, "thorough": 16}
 FLOORS = {"data_messages_checked": 5000, "window_adjusts_delivered": 500, "close_messages_checked": 200,
-          "streams_complete_at_quiescence": 500, "writes_buffered": 500, "bytes_received": 100000}
+          "streams_complete_at_quiescence": 500, "writes_buffered": 500, "bytes_received": 100000,
+          "hook_actions_start_write": 50, "hook_actions_start_close": 10}
 READY = True
 
 KNOWN_EXT = "ssh-close-before-second-ext-buffer"
@@ -106,6 +112,12 @@ def make_classes():
         def closed(self):
             self.world.log.append(("closed",) + self.tag)
 
+        def startWriting(self):
+            self.world.on_hook(self.tag, "start")
+
+        def stopWriting(self):
+            self.world.on_hook(self.tag, "stop")
+
         def openFailed(self, reason):
             self.world.problem("open-failed", "channel open failed", {"reason": repr(reason)})
 
@@ -144,9 +156,15 @@ class Dir:
 
 
 class World:
-    def __init__(self, ctx, sizes):
+    def __init__(self, ctx, sizes, hooks=(), rng_bytes=None):
         Chan, Conn = make_classes()
         self.ctx = ctx
+        self.rng_bytes = rng_bytes
+        # scripted re-entrant application behaviour: what the channel's startWriting()/stopWriting()
+        # hook does, synchronously, the next times it is called
+        self.hooks = {}
+        for idx, side, kind, action in hooks:
+            self.hooks.setdefault((idx, side, kind), []).append(tuple(action))
         self.sizes = sizes
         self.log = []
         self.problems = []
@@ -286,14 +304,32 @@ class World:
                 break
         return n
 
-    def apply(self, act, rng_bytes):
+    def apply(self, act):
         kind = act[0]
         if kind == "deliver":
             if self.stub[act[1]].q:
                 self.deliver(act[1])
             return
-        idx, side = act[1], act[2]
+        self.app(act)
+
+    def on_hook(self, tag, kind):
+        idx, side = tag
+        script = self.hooks.get((idx, side, kind))
+        if (idx, side) not in self.chan or not script or self.dead:
+            return  # (hooks are inert while the channels are being opened)
+        action = script.pop(0)
+        self.ctx.count("hook_actions_%s_%s" % (kind, action[0]))
+        self.log.append(("hook", kind, idx, side) + action)
+        self.app((action[0], idx, side) + action[1:], in_hook=True)
+
+    def app(self, act, in_hook=False):
+        """One application call on a channel; the model records it at the moment it happens, so
+        'written in order' is the order of the write() calls, re-entrant ones included."""
+        kind, idx, side = act[0], act[1], act[2]
         ch, d = self.chan[(idx, side)], self.dirs[(idx, side)]
+        if d.close_requested and kind != "adjust":
+            return  # the application never writes (or closes again) after its own loseConnection()
+        rng_bytes = self.rng_bytes
         try:
             if kind == "write":
                 data = rng_bytes(act[3])
@@ -313,6 +349,8 @@ class World:
             elif kind == "adjust":
                 self.conn[side].adjustWindow(ch, act[3])
         except Exception as e:  # noqa: BLE001
+            if in_hook:
+                raise
             self.problem("exception-in-channel-api-" + type(e).__name__, "%s raised" % kind, {"action": list(act), "error": repr(e)[:200]})
             self.dead = True
         if kind in ("write", "seq", "ext") and any(d.unsent(s) for s in (0, 1, 2)):
@@ -386,15 +424,34 @@ def gen_case(rng):
     return sizes, hist
 
 
-def run_case(ctx, sizes, hist, data_seed):
+def gen_hooks(rng, sizes):
+    """Re-entrant application scripts: (channel, side, 'start'|'stop', action).  startWriting hooks
+    write normal / extended data or close (a producer that produces as soon as it is resumed);
+    stopWriting hooks only close: writing more from the 'stop writing' hint is not a use the
+    channel has to support (the window it would use is already spoken for)."""
+    hooks = []
+    scale = min(rng.choice((3, 30, 300)), 40 * min(min(s[1], s[3]) for s in sizes))
+    for idx in range(len(sizes)):
+        for side in "AB":
+            if rng.random() < 0.7:
+                for _ in range(rng.randint(1, 4)):
+                    r = rng.random()
+                    n = rng.choice((1, 2, 3, rng.randint(0, scale)))
+                    hooks.append((idx, side, "start", ("write", n) if r < 0.5 else ("ext", rng.choice((1, 2)), n) if r < 0.8 else ("close",)))
+            if rng.random() < 0.2:
+                hooks.append((idx, side, "stop", ("close",)))
+    return hooks
+
+
+def run_case(ctx, sizes, hist, data_seed, hooks=()):
     import random
 
     drng = random.Random(data_seed)
-    w = World(ctx, sizes)
+    w = World(ctx, sizes, hooks, drng.randbytes)
     for act in hist:
         if w.dead or w.problems:
             break
-        w.apply(tuple(act), drng.randbytes)
+        w.apply(tuple(act))
     if not w.problems:
         w.run_all()
     if not w.problems:
@@ -402,18 +459,21 @@ def run_case(ctx, sizes, hist, data_seed):
     return w
 
 
-def check_case(ctx, sizes, hist, data_seed):
-    w = run_case(ctx, sizes, hist, data_seed)
+def check_case(ctx, sizes, hist, data_seed, hooks=()):
+    w = run_case(ctx, sizes, hist, data_seed, hooks)
     ctx.evaluated()
+    if hooks:
+        ctx.count("cases_with_reentrant_hooks")
     if w.buffered:
-        ctx.distinct((tuple(sizes), tuple(map(repr, hist))))
+        ctx.distinct((tuple(sizes), tuple(map(repr, hist)), tuple(map(repr, hooks))))
     done = set()
     for key, what, detail in w.problems:
         if key in done:
             continue
         done.add(key)
         ctx.violation(key, what, {"sizes(opener,openerWindow,openerMaxPkt,acceptorWindow,acceptorMaxPkt)": [list(s) for s in sizes],
-                                  "history": [list(a) for a in hist], "data_seed": data_seed, "detail": detail,
+                                  "history": [list(a) for a in hist], "hooks(channel,side,when,action)": [list(h) for h in hooks],
+                                  "data_seed": data_seed, "detail": detail,
                                   "message_log_tail": w.log[-25:]})
     return w
 
@@ -422,7 +482,8 @@ def run(ctx):
     for i in ctx.cases(6000, 300000):
         rng = ctx.case_rng(i)
         sizes, hist = gen_case(rng)
-        w = check_case(ctx, sizes, hist, "%s:%d" % (ctx.seed, i))
+        hooks = gen_hooks(ctx.case_rng(i, "hooks"), sizes) if i % 2 else []
+        w = check_case(ctx, sizes, hist, "%s:%d" % (ctx.seed, i), hooks)
         if i < 2:
             ctx.sample({"sizes": sizes, "history": hist, "message_log_head": w.log[:30]})
 
@@ -430,4 +491,5 @@ def run(ctx):
 def replay(ctx, w):
     x = w["witness"]
     sizes = [tuple(s) for s in x["sizes(opener,openerWindow,openerMaxPkt,acceptorWindow,acceptorMaxPkt)"]]
-    check_case(ctx, sizes, [tuple(a) for a in x["history"]], x["data_seed"])
+    hooks = [(h[0], h[1], h[2], tuple(h[3])) for h in x.get("hooks(channel,side,when,action)", [])]
+    check_case(ctx, sizes, [tuple(a) for a in x["history"]], x["data_seed"], hooks)
